@@ -118,6 +118,10 @@ def run(R):
         for cx in fam:
             for n in cx.cfg.nodes:
                 for x in n.walk():
+                    if isinstance(x, ast.Attribute) and x.attr == 'value' and isinstance(x.value, ast.Call) and isinstance(x.value.func, ast.Attribute) \
+                            and self_attr(x.value.func.value, trie):
+                        # `.value` taken straight from the lookup call: nothing can have tested the step
+                        R.fail('C04.MPT.2', f'{cx.qual} :: {ast.unparse(x)[:60]}', cx.qual, x, 'trie step used without testing that a prefix matched', site(cx, x))
                     if isinstance(x, ast.Attribute) and x.attr == 'value' and isinstance(x.value, ast.Name):
                         srcs = cx.sources(n, x.value)
                         if not any(s.kind == 'expr' and isinstance(s.expr, ast.Call) and isinstance(s.expr.func, ast.Attribute)
